@@ -29,6 +29,16 @@ CHECKS["C13"] = dict(
    text="Exploration: a generated model is written twice - plain vs randomly respelled at every decision point (shorthand/expanded per type node, primitive alias names, [null,T], !generic, quoting, flow/block, dimension syntaxes, noise comments and blank lines), or in a random definition order and file distribution. Oracle: same accept/reject verdict (1 in 5 models carries an injected violation); pure-syntax respelling => every generated C++/Python/MATLAB file byte-identical; reorder/re-split => the schema literal of every protocol identical in the C++, Python and MATLAB output.",
    note="trusted: the harness's YAML emitter really produces equivalent spellings (validated by the generator-soundness self test); wire behaviour of re-ordered models is covered by the run-time legs",
    ref="DESIGN.md section 3 (C13)")
+CHECKS["C06"] = dict(
+   technique="property-based testing over generated model pairs (self, meaning-preserving rewrites, one documented edit at a generated position, independent pairs) against a verdict table transcribed from docs/cpp/evolution.md",
+   text="Exploration: for each generated valid model an old/new pair is built - identical, rewritten without change of meaning (permuted definitions/files, rename through alias, unused types, comments, respelling), edited by one of 24 documented edits at a generated position in a definition reachable from a protocol, or two independent models sharing names. Oracle: the CLI never aborts, exits 0/1, prints the same diagnostics on 3 runs; self/rewrite pairs are accepted silently; each edit gets the verdict of its documented class (compatible: silent; partially compatible: accepted with >=1 warning; incompatible: rejected with >=1 error). Positions the document is silent about (inside map values/keys, array items, generic arguments, optional-ness of stream items) are checked for totality and determinism only.",
+   note="trusted: the edit/class table (harness/model/evolve.go) as a faithful transcription of the document's unambiguous statements",
+   ref="DESIGN.md section 3 (C06)")
+CHECKS["C18"] = dict(
+   technique="exhaustive enumeration of small import graphs plus random larger graphs, checked against a reference loader over the abstract graph, with a permutation (order-independence) metamorphic relation",
+   text="Exploration: all directed graphs (self-loops included) on up to 3 packages (quick) / 4 packages (thorough, 65 536 graphs) and random graphs on 5-14 packages with chains around the nesting limit, shortcuts, diamonds, cycles away from the root, namespace clashes and relative/absolute/redundant path spellings. A reference loader decides reachability, cycles, clashes and chain lengths; yardl must reject exactly when the reference does (cases with a chain of exactly the limit, or a long chain next to a shorter path, are only required to be order-independent), must list exactly the reachable namespaces once each with their own definitions in model.json, and must give the same verdict and definitions for reversed and rotated import lists.",
+   note="trusted: the reference loader (60 lines) and the reading of the limit as packaging.MaxImportRecursionDepth = 10 edges",
+   ref="DESIGN.md section 3 (C18)")
 NOT_YET = {}
 
 props = [json.loads(l) for l in open("properties.jsonl")]
